@@ -2,6 +2,7 @@ package props
 
 import (
 	"fmt"
+	"reflect"
 	"strings"
 
 	"github.com/tyler-sommer/stick"
@@ -166,7 +167,21 @@ func (p *c10) buildCfg(c c10cfg) *Program {
 		body = append(pre, tx("H("), &gen.NBlock{Name: "bb", Body: []gen.Node{tx("HOSTBB")}}, &gen.NBlock{Name: "ba", Body: append([]gen.Node{tx("HOSTBA(")}, append(site, tx(")"))...)}, tx(")"))
 	}
 	ts["main"] = tpl("main", body...)
-	return &Program{Templates: ts, Main: "main", Ctx: map[string]interface{}{"w": "ctxw", "vars": map[string]stick.Value{"w": "varsw", "x": "varsx"}}}
+	return &Program{Templates: ts, Main: "main", Ctx: map[string]interface{}{"w": "ctxw", "vars": c10vars(c.over + c.target + c.site)}}
+}
+
+// c10vars is the hash the host hands over through a variable: a Go map of one type or another (a context
+// variable is rarely a map[string]stick.Value), always with the same two entries.
+func c10vars(k int) interface{} {
+	switch k % 4 {
+	case 0:
+		return map[string]stick.Value{"w": "varsw", "x": "varsx"}
+	case 1:
+		return map[string]interface{}{"w": "varsw", "x": "varsx"}
+	case 2:
+		return map[string]string{"w": "varsw", "x": "varsx"}
+	}
+	return map[gen.KeyStr]string{"w": "varsw", "x": "varsx"}
 }
 
 func (p *c10) cfgAt(i int) c10cfg {
@@ -240,9 +255,11 @@ func (p *c10) Run(i int) (res fw.Result) {
 		return
 	}
 	res.AddObs("probes", int64(strings.Count(lib.out, "[")))
-	if v, ok := prog.Ctx["vars"].(map[string]stick.Value); ok {
-		if len(v) != 2 || v["w"] != "varsw" || v["x"] != "varsx" {
-			res.Fail("caller-map-changed", "c10:callermap:"+sig, fmt.Sprintf("the hash passed by the caller was modified by the included template: %v", v), prog.describe())
+	if v := prog.Ctx["vars"]; v != nil {
+		for k := 0; k < 4; k++ {
+			if fresh := c10vars(k); reflect.TypeOf(fresh) == reflect.TypeOf(v) && !reflect.DeepEqual(fresh, v) {
+				res.Fail("caller-map-changed", "c10:callermap:"+sig, fmt.Sprintf("the hash passed by the caller was modified by the included template: %v", v), prog.describe())
+			}
 		}
 	}
 	if nt {
@@ -256,7 +273,7 @@ func (p *c10) Run(i int) (res fw.Result) {
 }
 
 func (p *c10) Rule() string {
-	return "exhaustive product {include, embed} x {plain, with {w}, only, with+only, with overriding a host variable, with an existing hash variable + only, with an existing hash variable} x call site {top level, loop body whose loop variable collides with a host variable (once with a string, once with null; the construct is used again directly after the loop), block of an extending host whose ancestor has blocks named like the target's, macro body, if body, block of a non-extending host that shares both block names} x target {plain, assigns colliding names x and w, assigns a fresh name, extends a base, extends a base and assigns inside a block} x embed override subset (4 subsets of {ba, bb}; bb's override calls parent()) x {once, twice in a row with the complementary override subset}; random: a second (and third) include/embed nested inside the target's block or an override. Host and target print which of x, y, w, z they see (probe function) at the start, after assignments, inside every block and override, and after the construct. Oracle: reference model (copy of the visible variables overlaid by the with-hash, or the with-hash alone under only; assignments never flow back; embed = exactly the overrides of its body in front of the target's own chain). Non-trivial = a name or block-name collision exists; enumerated coordinates are distinct by construction."
+	return "exhaustive product {include, embed} x {plain, with {w}, only, with+only, with overriding a host variable, with an existing hash variable + only, with an existing hash variable - a Go map of type map[string]Value, map[string]interface{}, map[string]string or keyed by a defined string type} x call site {top level, loop body whose loop variable collides with a host variable (once with a string, once with null; the construct is used again directly after the loop), block of an extending host whose ancestor has blocks named like the target's, macro body, if body, block of a non-extending host that shares both block names} x target {plain, assigns colliding names x and w, assigns a fresh name, extends a base, extends a base and assigns inside a block} x embed override subset (4 subsets of {ba, bb}; bb's override calls parent()) x {once, twice in a row with the complementary override subset}; random: a second (and third) include/embed nested inside the target's block or an override. Host and target print which of x, y, w, z they see (probe function) at the start, after assignments, inside every block and override, and after the construct. Oracle: reference model (copy of the visible variables overlaid by the with-hash, or the with-hash alone under only; assignments never flow back; embed = exactly the overrides of its body in front of the target's own chain). Non-trivial = a name or block-name collision exists; enumerated coordinates are distinct by construction."
 }
 
 func (p *c10) Assumptions() []string {
